@@ -73,9 +73,8 @@ def IN_APP_EXCLUDE():
     if user_defined is None:
         user_defined = []
     else:
-        if ',' in user_defined:
-            user_defined = user_defined.split(',')
-        user_defined = [user_defined]
+        # a list of strings, also for more than one value
+        user_defined = user_defined.split(',')
 
     prefix = sys.exec_prefix
     user_defined.append(prefix)
